@@ -180,6 +180,8 @@ func (c *twistPoint) Mul(a *twistPoint, scalar *big.Int) {
 
 func (c *twistPoint) MakeAffine() {
 	if c.z.IsOne() {
+		// t caches z² for the pairing; Neg resets it and Add/Double do not maintain it
+		c.t.SetOne()
 		return
 	} else if c.z.IsZero() {
 		c.x.SetZero()
